@@ -93,6 +93,10 @@ class M:
         return v
 
     def _speed(self):
+        if "mot" in self.changed and not self.clamp and self.draw(st.integers(0, 5)) == 0:
+            # an argument that reads the motor's own state: evaluated before the command takes effect, as a Python argument is
+            self.state_dep += 1
+            return self.draw(st.sampled_from(["mot.get_speed() * 0.5", "(0 - mot.get_speed())", "mot.get_applied_speed()", "(abs(mot.get_speed()) - 0.25)", "(mot.get_speed() * mot.get_speed())"]))
         if self.clamp and self.draw(st.integers(0, 2)) == 0:
             return f"__CL({self.draw(st.sampled_from([1.5, -1.5, 2, -7, 100.0, 1.01, -1.25]))};-1.0;1.0)__"
         mode = self.draw(st.sampled_from(["lit", "lit", "bound", "rt"]))
@@ -140,7 +144,10 @@ class M:
             elif o == "toggle":
                 L.append(f"{n}.toggle()"); self.state_dep += 1
             elif o == "set_brightness":
-                L.append(f"{n}.set_brightness({self.ival(0, 255)})")
+                if n in self.changed and not self.clamp and self.draw(st.integers(0, 4)) == 0:
+                    L.append(f"{n}.set_brightness({self.draw(st.sampled_from(['255 - {d}.get_brightness()', '{d}.get_brightness() // 2', '({d}.get_brightness() + 40) % 256'])).format(d=n)})"); self.state_dep += 1
+                else:
+                    L.append(f"{n}.set_brightness({self.ival(0, 255)})")
             elif o == "blink":
                 t = self.draw(st.integers(1, 3)) if not self.clamp else self.draw(st.integers(-1, 3))
                 L.append(f"{n}.blink({small(6)}, {t})" if self.draw(st.booleans()) else f"{n}.blink(duration_ms={small(6)}, times={t})"); self.state_dep += 1
@@ -200,10 +207,10 @@ class M:
             elif o == "invert":
                 L.append("mot.invert()"); self.state_dep += 1
             elif o == "ramp":
-                d = self.draw(st.sampled_from([0, 10, 20, 40, 45])) if not self.clamp else self.draw(st.sampled_from([-10, 0, 20]))
+                d = self.draw(st.sampled_from([0, 10, 20, 40, 45, "int(abs(mot.get_speed()) * 40)"])) if not self.clamp else self.draw(st.sampled_from([-10, 0, 20]))
                 L.append(f"mot.ramp({self.speed()}, {d})"); self.state_dep += 1
             elif o == "run_for":
-                d = self.draw(st.sampled_from([0, 3, 10])) if not self.clamp else self.draw(st.sampled_from([-3, 0, 5]))
+                d = self.draw(st.sampled_from([0, 3, 10, "int(abs(mot.get_speed()) * 40)", "(5 if mot.get_mode() == 'drive' else 9)"])) if not self.clamp else self.draw(st.sampled_from([-3, 0, 5]))
                 L.append(f"mot.run_for({d}, {self.speed()})")
             else:
                 L.append(f"mon.write(mot.{self.draw(st.sampled_from(['get_speed()', 'get_applied_speed()', 'is_inverted()', 'get_mode()']))})")
